@@ -40,32 +40,32 @@ var allValidKinds = func() map[int64]bool {
 
 // legal kinds per reflect.Value method (nil = only validity is required)
 var valueMethodKinds = map[string]map[int64]bool{
-	"Len":          kindSet("Array", "Chan", "Map", "Slice", "String"),
-	"Cap":          kindSet("Array", "Chan", "Slice"),
-	"Index":        kindSet("Array", "Slice", "String"),
-	"Slice":        kindSet("Array", "Slice", "String"),
-	"MapKeys":      kindSet("Map"),
-	"MapIndex":     kindSet("Map"),
-	"MapRange":     kindSet("Map"),
-	"SetMapIndex":  kindSet("Map"),
-	"Elem":         kindSet("Interface", "Pointer"),
-	"IsNil":        kindSet("Chan", "Func", "Interface", "Map", "Pointer", "Slice", "UnsafePointer"),
-	"Field":        kindSet("Struct"),
-	"NumField":     kindSet("Struct"),
-	"FieldByName":  kindSet("Struct"),
-	"FieldByIndex": kindSet("Struct"),
+	"Len":             kindSet("Array", "Chan", "Map", "Slice", "String"),
+	"Cap":             kindSet("Array", "Chan", "Slice"),
+	"Index":           kindSet("Array", "Slice", "String"),
+	"Slice":           kindSet("Array", "Slice", "String"),
+	"MapKeys":         kindSet("Map"),
+	"MapIndex":        kindSet("Map"),
+	"MapRange":        kindSet("Map"),
+	"SetMapIndex":     kindSet("Map"),
+	"Elem":            kindSet("Interface", "Pointer"),
+	"IsNil":           kindSet("Chan", "Func", "Interface", "Map", "Pointer", "Slice", "UnsafePointer"),
+	"Field":           kindSet("Struct"),
+	"NumField":        kindSet("Struct"),
+	"FieldByName":     kindSet("Struct"),
+	"FieldByIndex":    kindSet("Struct"),
 	"FieldByIndexErr": kindSet("Struct"),
-	"Int":          kindSet("Int", "Int8", "Int16", "Int32", "Int64"),
-	"Uint":         kindSet("Uint", "Uint8", "Uint16", "Uint32", "Uint64", "Uintptr"),
-	"Float":        kindSet("Float32", "Float64"),
-	"Bool":         kindSet("Bool"),
-	"Call":         kindSet("Func"),
-	"Type":         allValidKinds,
-	"Interface":    allValidKinds,
-	"Method":       allValidKinds,
-	"NumMethod":    allValidKinds,
-	"MethodByName": allValidKinds,
-	"Convert":      allValidKinds,
+	"Int":             kindSet("Int", "Int8", "Int16", "Int32", "Int64"),
+	"Uint":            kindSet("Uint", "Uint8", "Uint16", "Uint32", "Uint64", "Uintptr"),
+	"Float":           kindSet("Float32", "Float64"),
+	"Bool":            kindSet("Bool"),
+	"Call":            kindSet("Func"),
+	"Type":            allValidKinds,
+	"Interface":       allValidKinds,
+	"Method":          allValidKinds,
+	"NumMethod":       allValidKinds,
+	"MethodByName":    allValidKinds,
+	"Convert":         allValidKinds,
 }
 
 var typeMethodKinds = map[string]map[int64]bool{
@@ -253,11 +253,11 @@ func intrinsicKinds(v ssa.Value) map[int64]bool {
 }
 
 type reflectSite struct {
-	in      ssa.Instruction
-	recv    ssa.Value
-	method  string
-	legal   map[int64]bool
-	onType  bool
+	in     ssa.Instruction
+	recv   ssa.Value
+	method string
+	legal  map[int64]bool
+	onType bool
 }
 
 func checkReflect(w *World, r *Report) {
@@ -708,8 +708,9 @@ func variadicElems(sl ssa.Value) []ssa.Value {
 }
 
 // containerTypeOrigin: the reflect.Value whose container type determines v's static type:
-//   MakeSlice(rv.Type()…) → rv ; rv.Index(i) → rv ; rv.MapIndex(k) → rv ; MakeMap(rv.Type()) → rv ;
-//   x.Index(i) where x = MakeSlice(rv.Type()) → rv ; key from rv.MapKeys() → rv
+//
+//	MakeSlice(rv.Type()…) → rv ; rv.Index(i) → rv ; rv.MapIndex(k) → rv ; MakeMap(rv.Type()) → rv ;
+//	x.Index(i) where x = MakeSlice(rv.Type()) → rv ; key from rv.MapKeys() → rv
 func containerTypeOrigin(v ssa.Value, depth int) ssa.Value {
 	if depth > 6 {
 		return nil
@@ -777,7 +778,6 @@ func assignableGuard(fn *ssa.Function, in ssa.Instruction) bool {
 	return fl.at(in)
 }
 
-
 // guardedInParent: the receiver is a variable captured by a closure; the precondition is
 // established in the enclosing function at the point where the closure is created.
 func guardedInParent(fn *ssa.Function, s reflectSite) string {
@@ -826,7 +826,6 @@ func guardedInParent(fn *ssa.Function, s reflectSite) string {
 	})
 	return out
 }
-
 
 // containerTypeOriginL: like containerTypeOrigin, but also reports at which "level" below the
 // origin's type the value's type sits ("" = the origin's own type, "e" = its element type,
